@@ -691,6 +691,16 @@ def fixed_overlap(N):
     # the UTF-8 bytes of é are the code points of Ã ©: r"é" vs r"[Ã-Ä][©-ª]" have no common string
     two("G006", "alias", chr_(1), cat(set_([2]), set_([3])), ["byte_alias"])
     two("G007", "exact4", chr_(1), set_([1, 2]), ["nonascii_literal_vs_class"])
+    # counted repetitions at their boundaries: r"a{2,}" vs r"a" (disjoint), vs r"aa" (overlap); r"a{3,}" vs r"aa|b";
+    # r"a{1,2}" vs r"aaa" (disjoint), vs r"aa" (overlap); r"(ab){2}" vs r"abab" / r"ab"
+    two("G009", "ascii", rep(chr_(1), 2, -1), chr_(1), ["counted_repetition", "disjoint"])
+    two("G010", "ascii", rep(chr_(1), 2, -1), cat(chr_(1), chr_(1)), ["counted_repetition"])
+    two("G011", "ascii", rep(chr_(1), 3, -1), alt(cat(chr_(1), chr_(1)), chr_(2)), ["counted_repetition", "disjoint"])
+    two("G012", "ascii", rep(chr_(1), 1, 2), cat(chr_(1), chr_(1), chr_(1)), ["counted_repetition", "disjoint"])
+    two("G013", "ascii", rep(chr_(1), 1, 2), cat(chr_(1), chr_(1)), ["counted_repetition"])
+    two("G014", "ascii", rep(cat(chr_(1), chr_(2)), 2, 2), cat(chr_(1), chr_(2)), ["counted_repetition", "disjoint"])
+    two("G015", "ascii", rep(cat(chr_(1), chr_(2)), 2, 2), plus(set_([1, 2])), ["counted_repetition"])
+    two("G016", "ascii", rep(set_([1, 2]), 2, 3), rep(set_([2, 3]), 0, 1), ["counted_repetition"])
     # an overlap that a higher-precedence terminal shadows on every common string:
     # match { "b" => "KW1" } else { _ } with r"b" and r"[abc]{1,2}" used in the grammar
     out.append({"id": "G008", "aname": "ascii", "alpha": A["ascii"][0], "N": N, "style": "raw", "group": "(?:",
